@@ -9,7 +9,8 @@
 //   * version key order (TimestampComparator over encoded internal keys): 6 user keys x 5 timestamps, every
 //     insert carries a fresh sequence number and a kind - an insert of an existing (user key, timestamp) must
 //     replace the stored KEY bytes as well as the value
-//   * value sizes {0, 10, 300, 1500, 5000} (5000 > page: overflow chains), deletes, overwrites, reopen
+//   * value sizes {0, 10, 300, 900, 990, 1000, 1500, 3000, 5000} (the large ones live in overflow chains and take
+//     less room on the leaf than a 990-byte inline value), deletes, overwrites, reopen
 // Bound (stated): `nseq` sequences x `len` operations per key order.
 use super::*;
 use crate::bplustree::tree::new_disk_tree;
@@ -32,7 +33,9 @@ impl Rng {
 }
 
 fn value_of(rng: &mut Rng, tag: u64) -> Vec<u8> {
-	let len = [0usize, 10, 300, 1500, 5000][rng.below(5) as usize];
+	// 900..1000 is just below / around the largest value stored inline; 1500..5000 go to overflow pages and take
+	// LESS room on the leaf than those
+	let len = [0usize, 10, 300, 900, 990, 1000, 1500, 3000, 5000][rng.below(9) as usize];
 	let mut v = vec![(tag % 251) as u8; len];
 	for (i, b) in v.iter_mut().enumerate().take(8) {
 		*b = ((tag >> (8 * (i % 8))) & 0xff) as u8;
@@ -65,8 +68,13 @@ fn bptree_enum_impl(nseq: u64, len: usize, name: &str) {
 		}
 		pool.push(k);
 	}
+	// VERIF_ONLY_SEQ=<n>: run only that sequence (both key orders) and print the complete operation trace
+	let only: Option<u64> = std::env::var("VERIF_ONLY_SEQ").ok().and_then(|s| s.parse().ok());
 	for version_order in [false, true] {
 		for s in 0..nseq {
+			if only.map_or(false, |o| o != s) {
+				continue;
+			}
 			cases += 1;
 			let mut rng = Rng(0x9E3779B97F4A7C15 ^ (seed.wrapping_mul(0x100000001B3)) ^ (s + 1).wrapping_mul(0xD1342543DE82EF95) ^ (version_order as u64));
 			let dir = tempdir::TempDir::new("verif_c18").unwrap();
@@ -108,7 +116,7 @@ fn bptree_enum_impl(nseq: u64, len: usize, name: &str) {
 				if choice < 55 {
 					let (ok, kb) = mk(&mut rng, &mut seqno);
 					let v = value_of(&mut rng, s * 1000 + step as u64);
-					trace.push(format!("insert(key#{} len {}, value len {})", model.len(), kb.len(), v.len()));
+					trace.push(format!("insert(key {:?}, value len {})", kb, v.len()));
 					if v.len() >= 300 {
 						splits_likely += 1;
 					}
@@ -119,7 +127,7 @@ fn bptree_enum_impl(nseq: u64, len: usize, name: &str) {
 					model.insert(ok, (kb, v));
 				} else if choice < 75 {
 					let (ok, kb) = mk(&mut rng, &mut seqno);
-					trace.push(format!("delete(key len {})", kb.len()));
+					trace.push(format!("delete(key {:?})", kb));
 					let want = model.remove(&ok).map(|(_, v)| v);
 					match tree.delete(&kb) {
 						Err(e) => {
@@ -135,7 +143,7 @@ fn bptree_enum_impl(nseq: u64, len: usize, name: &str) {
 					}
 				} else if choice < 92 {
 					let (ok, kb) = mk(&mut rng, &mut seqno);
-					trace.push(format!("get(key len {})", kb.len()));
+					trace.push(format!("get(key {:?})", kb));
 					let want = model.get(&ok).map(|(_, v)| v.clone());
 					match tree.get(&kb) {
 						Err(e) => {
@@ -213,6 +221,13 @@ fn bptree_enum_impl(nseq: u64, len: usize, name: &str) {
 				if samples.len() < 3 {
 					samples.push(format!("\"order={} seq#{s}: {}\"", if version_order { "version" } else { "bytewise" }, trace.iter().take(12).cloned().collect::<Vec<_>>().join("; ")));
 				}
+			}
+			if only.is_some() {
+				eprintln!("TRACE order={} seq={s}:", if version_order { "version" } else { "bytewise" });
+				for (i, t) in trace.iter().enumerate() {
+					eprintln!("  {i}: {t}");
+				}
+				eprintln!("  result: {:?}", bad);
 			}
 			if let Some(b) = bad {
 				if failures.len() < 5 {
